@@ -77,6 +77,9 @@ SPInvolution ==
   WFFast(sp.dp) => LET r1 == SPReverse(sp) IN
                    /\ r1.ok
                    /\ LET r2 == SPReverse(r1.sp) IN r2.ok /\ r2.sp = Forget(sp)
+\* "reversal also swaps the metadata": interface and note lists come out in reverse order
+MetaListsReversed ==
+  (WFFast(sp.dp) /\ sp.meta.present) => LET r == SPReverse(sp).sp IN r.meta.ifs = Rev(sp.meta.ifs) /\ r.meta.notes = Rev(sp.meta.notes)
 \* both fingerprints are stable under reversal twice, and reversal exchanges the end points
 FingerprintsStable ==
   WFFast(sp.dp) => LET r2 == SPReverse(SPReverse(sp).sp).sp IN r2.fp = sp.fp /\ r2.cpfp = sp.cpfp
